@@ -525,13 +525,17 @@ class HostConnection(object):
         else:
             with connection.lock:
                 with self._lock:
-                    if connection.orphaned_threshold_reached:
+                    is_shutdown = self.is_shutdown
+                    if connection.orphaned_threshold_reached and not is_shutdown:
                         if connection.in_flight == len(connection.orphaned_request_ids):
                             connection.close()
                         else:
                             self._trash.add(connection)
                     self._is_replacing = False
                     self._stream_available_condition.notify()
+            if is_shutdown:
+                # shutdown() already emptied the trash: nobody would close the old connection later
+                connection.close()
 
     def shutdown(self):
         with self._lock:
